@@ -254,7 +254,10 @@ def run(ctx: Ctx):
     from ..rules import fwd
 
     r9 = fwd.run_fwd(ctx.p, "C17.9", ("urwid.widget",), floor=100, description="containers and decorations pass the focus flag they receive on to the children they draw / measure: a focus map further down is applied exactly when the widget is in focus")
-    return [rule_palette_order(ctx), rule_palette_notify(ctx), rule_palette_cache(ctx), rule_palette_total(ctx), rule_attrmap(ctx), r6, r7, r8, r9]
+    from ..rules import accum
+
+    r10 = accum.run_accum(ctx.p, "C17.10", "C17", floor=2)
+    return [rule_palette_order(ctx), rule_palette_notify(ctx), rule_palette_cache(ctx), rule_palette_total(ctx), rule_attrmap(ctx), r6, r7, r8, r9, r10]
 
 
 _CM = "urwid/display/common.py"
